@@ -112,8 +112,9 @@ pub fn output_tokens(
     let trait_ident = &out_trait.ident;
     let trait_unsafety = &out_trait.unsafety;
     // A method that consumes `self` moves the `T` out of the `Impl<T>`
-    // (and the future of an async `&mut self` method holds a `&mut T`, which is `Send` only if `T` is)
-    let holds_mut_across_await = out_trait.fns.iter().any(|trait_fn| {
+    // (and the future of an async `&mut self` method holds a `&mut T`, which is `Send` only if `T` is;
+    // with `?Send` nothing asks that of the future)
+    let holds_mut_across_await = attr.opts.future_send().0 && out_trait.fns.iter().any(|trait_fn| {
         trait_fn.originally_async
             && matches!(
                 trait_fn.sig().inputs.first(),
